@@ -7,6 +7,7 @@ import Q1t.Proofs.CQasmGates2
 import Q1t.Proofs.CQasmGates3
 import Q1t.Proofs.CQasmWitness
 import Q1t.Proofs.CQasmTrig
+import Q1t.Proofs.CQasmWFWitness
 /-!
 # C12 — the c-QASM export preserves the circuit's semantics or fails
 
@@ -14,8 +15,9 @@ Model: `Q1t/Model/CQasm.lean` (`Circuit::c_qasm`, every gate's `c_qasm` / `condi
 generated table `Gen.cqGates`).  Reference: `Q1t/Spec/CQ1.lean` (a cQASM 1.0 subset: parser, well-formedness, meaning
 of every instruction, single-shot branching semantics) and `Q1t/Spec/Born.lean` (the circuit).
 
-Full statement (NOT proved; the pinned code violates it on the defect classes witnessed below, and outside them it is
-checked by the correspondence (B) on every run, not proved):
+Full statement (FALSE on the pinned code: defect classes witnessed below.  Its well-formedness half is proved outside
+the syntactic defect classes: `cq_wellformed_partial`.  Its equivalence half, `cq_equiv_partial`, is NOT proved; it
+is checked by the correspondence (B) on every run):
 
   `cq_wellformed` / `cq_equiv`: for every circuit `c` whose operations can be simulated, `exportText c` is an error, or
   a text `t` with `parseProgram t = ok p`, `programWf p = none` and, for every register word `w`,
@@ -76,6 +78,32 @@ theorem cq_refuses_error (tbl : List Gen.CQGate) (N : Num F) (nq : Nat) (op : XO
 example : exportText Gen.cqGates noNum ⟨1, 1, [.gate (lib "H") [0], .peek 0 0 .Z]⟩ = .err .exportPeekInvalid := by decide
 example : exportText Gen.cqGates noNum ⟨2, 2, [.gate (lib "H") [0], .measure 0 1 .Z]⟩ = .err .noClassicalRegister := by decide
 example : exportText Gen.cqGates noNum ⟨2, 2, [.measureAll [1, 0] .Z]⟩ = .err .noClassicalRegister := by decide
+
+
+/-! ## Well-formedness outside the defect classes -/
+
+/-- **cq_wellformed_partial**: for EVERY circuit of the decidable class `sound` (at least one qubit; gates on the right
+number of distinct qubits in range; library gates with a good translation — all but `U2 U3 CH CRZ CU2 CV CVdg`,
+`good_gates` — and direct parameters; an unconditioned `Kron` of two one-line library gates; loop labels that are
+identifiers) and every number printer satisfying `GoodNum` (a number prints as one decimal literal; the evaluated
+holes of the generated templates evaluate): if the export returns a text, the text parses with `Spec/CQ1` into a program
+over the circuit's qubits with no well-formedness problem.  Conditional multi-line gates, empty / repeated control
+lists, over-wide targets, X/Y `measure_all`, nested loops and `CCRZ` are inside the class (well formed, semantically
+wrong); peeks, mismatched measurements and the panicking circuits return no text. -/
+theorem cq_wellformed_partial (N : Num F) (hN : GoodNum N) (c : XCircuit F) (hs : sound c = true) (t : Text)
+    (h : exportText Gen.cqGates N c = .ok t) :
+    ∃ p, CQ1.parseProgram t = .ok p ∧ p.nq = c.nq ∧ CQ1.programWf p = none :=
+  wellformed_of_sound N hN c hs t h
+
+/-- which gates of the generated table do NOT have a good translation -/
+theorem good_gates :
+    (Gen.cqGates.filter fun g => !gateGood g).map (·.name) = ["CH", "CRZ", "CU2", "CV", "CVdg", "U2", "U3"] := by
+  decide +kernel
+
+/-- non-vacuity: a number system satisfying `GoodNum`, and a circuit of the class whose export succeeds -/
+example : GoodNum unitNum := unitNum_good
+example : sound soundSample = true ∧
+    (match exportText Gen.cqGates unitNum soundSample with | .ok _ => true | _ => false) = true := by decide +kernel
 
 /-! ## The `not` bracketing of a classically controlled gate -/
 
